@@ -499,6 +499,41 @@ Fixpoint distinct_sortkeys (kind api : string) (path : string) (n : cnode) {stru
          end) es
   end.
 
+(* every alias comes, in document order, after the node that defines its anchor (what a YAML
+   parser requires); [anchors_scan n seen] = the anchors defined once n has been read, None when an
+   alias refers to an anchor not yet seen *)
+Fixpoint anchors_scan (n : cnode) (seen : list string) {struct n} : option (list string) :=
+  let seen' := if String.eqb (h_anchor (chdr n)) "" then seen else h_anchor (chdr n) :: seen in
+  match n with
+  | CScalar _ _ => Some seen'
+  | CAlias _ v => if str_in v seen then Some seen else None
+  | CMap _ kvs =>
+      (fix go (l : list (cnode * cnode)) (sn : list string) : option (list string) :=
+         match l with
+         | [] => Some sn
+         | kv :: t =>
+             match anchors_scan (fst kv) sn with
+             | None => None
+             | Some s1 => match anchors_scan (snd kv) s1 with
+                          | None => None
+                          | Some s2 => go t s2
+                          end
+             end
+         end) kvs seen'
+  | CSeq _ es =>
+      (fix go (l : list cnode) (sn : list string) : option (list string) :=
+         match l with
+         | [] => Some sn
+         | e :: t => match anchors_scan e sn with
+                     | None => None
+                     | Some s1 => go t s1
+                     end
+         end) es seen'
+  end.
+
+Definition anchors_ok (n : cnode) : bool :=
+  match anchors_scan n [] with Some _ => true | None => false end.
+
 (* ---------- induction principle for the nested inductive ---------- *)
 Section CnodeInd.
   Variable P : cnode -> Prop.
